@@ -1,0 +1,29 @@
+//go:build verif
+
+package queue
+
+// Read-only probes for the verification harness (build tag "verif" only).
+
+// VerifProbe returns the ring buffer's indexes, minimum capacity and a copy of the buffer.
+func (q *Deque) VerifProbe() (head, tail, minCap int, buf []interface{}) {
+	return q.head, q.tail, q.minCap, append([]interface{}(nil), q.buf...)
+}
+
+// VerifProbe returns the length of every block from the head block on, the head index,
+// the recorded length and the size limit of the last created block.
+func (q *UnboundedQueue) VerifProbe() (blocks []int, hp, length, lastSliceSize int) {
+	for n := q.head; n != nil; n = n.next {
+		blocks = append(blocks, len(n.val))
+	}
+	return blocks, q.hp, q.len, q.lastSliceSize
+}
+
+// VerifInner exposes the queue guarded by the mutex (to be probed while no other goroutine runs).
+func (q *UnboundedConcurrentQueue) VerifInner() *UnboundedQueue {
+	return &q.queue
+}
+
+// VerifSliceSizes returns firstSliceSize, maxFirstSliceSize, maxInternalSliceSize.
+func VerifSliceSizes() (int, int, int) {
+	return firstSliceSize, maxFirstSliceSize, maxInternalSliceSize
+}
